@@ -505,7 +505,11 @@ def run(ctx):
         msg = real_check(r)
         hist.update('real:' + x[0] for x in r['res'])
         if msg and not ctx.violations:
+            # a real REPL on a loaded machine can miss its 30 s: what is reported must reproduce on its own, twice, with a pause in between
             again = real_check(real_session((r['kind'], r['seed'], len(r['cmds']), r.get('use_async', False), ctx.tmp)))
+            if again and 'TIMEOUT' in msg:
+                real_time.sleep(5)
+                again = real_check(real_session((r['kind'], r['seed'], len(r['cmds']), r.get('use_async', False), ctx.tmp)))
             if again:
                 common.report(ctx, 'repl/%s/wrong-output' % r['kind'], msg, dict(kind='real', job=[r['kind'], r['seed'], len(r['cmds']), r.get('use_async', False)]))
             else:
